@@ -477,6 +477,7 @@ def rule_c01(an, res):
                             V(res, prop, 'R-PARTITION-INTEGRITY', cm, where_of(m, seg), 'slot list shape not established',
                               first_site(seg.effs('MOVE', 'PART', 'BIND', 'UNBIND'), seg, m), '; '.join(sim.unknown[:3]))
         check_no_rehash(an, res, prop, cm, roles)
+        check_ctor_shape(an, res, prop, cm, roles)
 
 
 def check_splice_dest(res, prop, cm, roles, m, top):
@@ -713,6 +714,63 @@ def check_entities(res, prop, cm, roles, m, seg):
                   'path [%s]: %s names its slot through %s: %s' % (' '.join(seg.valuation()), e.kind, what, show(ent.term) if isinstance(ent.term, tuple) else ent.term))
 
 
+def field_default_zero(cm, name):
+    f = cm.field_by_name.get(name)
+    if f is None:
+        return False
+    for n in _walk(f.node):
+        if n.get('kind') == 'IntegerLiteral':
+            return n.get('value') == '0'
+    return False
+
+
+def check_ctor_shape(an, res, prop, cm, roles):
+    """R-CTOR-SHAPE: the constructor establishes the representation invariant of the empty cache: slot storage / slot list / open
+    list sized with the capacity argument, slot ids 0..capacity-1 each exactly once, partition at the head, counter 0"""
+    if roles.name not in CACHES:
+        return
+    ctor = cm.ctor()
+    inits, wrs, iotas = {}, {}, []
+    for p in an.paths(cm, ctor):
+        for e in p.trace:
+            if e[0] == 'init':
+                inits[e[1]] = e[2]
+            elif e[0] == 'wr':
+                wrs[e[1]] = e[2]
+            elif e[0] == 'iota':
+                iotas.append(e)
+    site = ctor.loc and (ctor.loc[0], ctor.loc[1], ctor.key())
+    probs = []
+
+    def sized(field):
+        v = inits.get(THIS(field))
+        return isinstance(v, tuple) and v[0] == 'ctor' and len(v[2]) >= 1 and v[2][0] == ('p', 'capacity')
+
+    for role in ('slots', 'order', 'perm'):
+        f = getattr(roles, role, None)
+        if f and not sized(f):
+            probs.append('%s is not constructed with `capacity` elements' % f)
+    ids = roles.order if roles.kind == 'slotvec' and roles.order else getattr(roles, 'perm', None)
+    if roles.kind == 'slotvec' and ids:
+        c = THIS(ids)
+        good = [e for e in iotas if isinstance(e[1], tuple) and e[1][0] == 'q' and e[1][1] in ('begin', 'cbegin') and e[1][2] == c
+                and isinstance(e[2], tuple) and e[2][0] == 'q' and e[2][1] in ('end', 'cend') and e[2][2] == c and e[3] == ('int', 0)]
+        if len(good) != 1 or len(iotas) != 1:
+            probs.append('%s is not numbered 0..capacity-1 over its whole range exactly once' % ids)
+    if roles.part and roles.order:
+        v = wrs.get(THIS(roles.part))
+        if not (isinstance(v, tuple) and v[0] == 'q' and v[1] in ('begin', 'cbegin') and v[2] == THIS(roles.order)):
+            probs.append('%s does not start at the head of %s' % (roles.part, roles.order))
+    if roles.counter:
+        v = inits.get(THIS(roles.counter), wrs.get(THIS(roles.counter)))
+        zero = v == ('int', 0) or (v in (('default',), None) and field_default_zero(cm, roles.counter))
+        if not zero:
+            probs.append('%s does not start at 0' % roles.counter)
+    res.ob('R-CTOR-SHAPE', ok=not probs)
+    for pmsg in probs:
+        V(res, prop, 'R-CTOR-SHAPE', cm, ctor.key(), pmsg.split(' (')[0], site, 'constructor: %s (the empty cache must satisfy the representation invariant)' % pmsg)
+
+
 def check_no_rehash(an, res, prop, cm, roles):
     if roles.name not in CACHES:
         return
@@ -758,6 +816,7 @@ def rule_c08(an, res):
         L = lift.Lifter(roles)
         check_raii(an, res, prop, cm)
         check_no_rehash(an, res, prop, cm, roles)
+        check_ctor_shape(an, res, prop, cm, roles)
         for m in an.entry_points(cm):
             k = ops.kind_of(m)
             for top in method_segments(an, cm, roles, m, res):
